@@ -216,7 +216,7 @@ class ProfileFamily:
                 'error': rng.chance(0.6), 'mask': rng.chance(0.4),
                 'method': rng.pick(['exact', 'center', 'subpixel']),
                 'unit': rng.chance(0.25), 'nan': rng.chance(0.3),
-                'signed': rng.chance(0.3)}
+                'signed': rng.chance(0.3), 'nan_error': rng.chance(0.25)}
 
     def make_scene(self, rng, cfg):
         n = rng.randint(15, 41)
@@ -241,8 +241,11 @@ class ProfileFamily:
         r0 = 0.0 if (cfg['cls'] == 'radial' and rng.chance(0.5)) \
             else rng.uniform(0.3, 2)
         radii = list(np.round(r0 + np.cumsum([0] + steps), 3))
-        return {'data': enc(data),
-                'error': enc(np.abs(g.normal(1, 0.1, data.shape)) + 0.1),
+        err = np.abs(g.normal(1, 0.1, data.shape)) + 0.1
+        if cfg.get('nan_error'):
+            err[rng.randrange(n), rng.randrange(n)] = np.nan
+            err[n // 2, n // 2 + 1] = np.inf
+        return {'data': enc(data), 'error': enc(err),
                 'mask': enc(g.random(data.shape) < 0.05), 'xycen': xy,
                 'radii': radii}
 
